@@ -280,6 +280,62 @@ func (c *Ctx) checkGuard(rule string, g guardSpec) {
 			compute(fn, lockState{})
 		}
 	}
+	// Inferred "callers must hold the lock" helpers: an unexported method of the guarded type (or
+	// an unexported function of its package) all of whose uses are plain synchronous calls made
+	// with the lock held starts with that lock. This is what "extract the critical section's body
+	// into a helper" produces; the documented helpers of the table are the same thing by name.
+	inferred := map[*ssa.Function]lockMode{}
+	pkgPath := ""
+	if n.Obj().Pkg() != nil {
+		pkgPath = n.Obj().Pkg().Path()
+	}
+	for round := 0; round < 3; round++ {
+		changed := false
+		for _, fn := range p.ModFuncs {
+			if fn.Parent() != nil || fn.Object() == nil || fn.Object().Exported() || fn.Blocks == nil || funcPkgPath(fn) != pkgPath {
+				continue
+			}
+			if len(guardedAccessesDeep(fn, guarded)) == 0 {
+				continue
+			}
+			refs := p.refsTo(fn)
+			if len(refs) == 0 {
+				continue
+			}
+			entry := lockW
+			for _, r := range refs {
+				if r.Kind != "call" {
+					entry = lockNone
+					break
+				}
+				if _, isGo := r.Instr.(*ssa.Go); isGo {
+					entry = lockNone
+					break
+				}
+				mode := lockNone
+				if _, isDefer := r.Instr.(*ssa.Defer); isDefer {
+					mode = lockNone // runs at exit, after deferred unlocks registered later; be conservative
+				} else if lf := locks[r.In]; lf != nil {
+					mode = lf[r.Instr][lockID]
+				}
+				if mode < entry {
+					entry = mode
+				}
+			}
+			if entry != inferred[fn] {
+				inferred[fn] = entry
+				changed = true
+				init := lockState{}
+				if entry != lockNone {
+					init[lockID] = entry
+				}
+				compute(fn, init)
+			}
+		}
+		if !changed {
+			break
+		}
+	}
 
 	type agg struct {
 		n, bad int
@@ -361,7 +417,8 @@ func (c *Ctx) checkGuard(rule string, g guardSpec) {
 	for _, h := range g.helpers {
 		fn := p.MethodOf(n, h)
 		if fn == nil {
-			c.Unresolved(rule, g.typ+"."+h, "helper not found")
+			// the documented helper no longer exists (inlined into its caller): nothing to require
+			c.Exempt(rule, g.typ+"."+h+" (callers must hold "+g.mutex+")", "-", "the helper does not exist on this tree (its body is checked where it was inlined)")
 			continue
 		}
 		var bad []string
@@ -440,4 +497,13 @@ func isInterfaceImpl(p *Prog, fn *ssa.Function) bool {
 		}
 	}
 	return false
+}
+
+// guardedAccessesDeep: guarded accesses of fn and of its closures.
+func guardedAccessesDeep(fn *ssa.Function, guarded map[*types.Var]string) []guardedAccess {
+	out := guardedAccesses(fn, guarded)
+	for _, a := range fn.AnonFuncs {
+		out = append(out, guardedAccessesDeep(a, guarded)...)
+	}
+	return out
 }
